@@ -244,7 +244,16 @@ pub fn encode_sst(strings: &[SstStr], plan: &SplitPlan, total_refs: u32, rng: &m
             Atom::Run(_) => 4,
             Atom::Ext(_) => 1,
         };
-        let forced = cur.len() + need > MAX_REC;
+        let mut forced = cur.len() + need > MAX_REC;
+        // a writer may cut anywhere between code units; unless surrogate cuts are asked for, the
+        // forced cut is taken one unit early rather than between the halves of a pair
+        if !plan.allow_surrogate_cuts && !forced {
+            if let (Atom::Char(c), Some(Atom::Char(_))) = (&atoms[i], atoms.get(i + 1)) {
+                if (0xD800..0xDC00).contains(c) && cur.len() + 2 * need > MAX_REC {
+                    forced = true;
+                }
+            }
+        }
         let planned = wants_cut(i, rng);
         if forced || planned {
             // a forced cut between surrogate halves cannot be avoided by the plan; skip the cut by
